@@ -333,18 +333,24 @@ _add(PropertySpec(
     'C08', 'other',
     functions=['ampycloud.utils.utils.calc_base_height', 'ampycloud.data.CeiloChunk._get_min_sep_for_height',
                'ampycloud.data.CeiloChunk._calculate_cloud_amount', 'ampycloud.wmo.perc2okta', 'ampycloud.wmo.okta2code', 'ampycloud.wmo.height2code',
-               'ampycloud.data.AbstractChunk._cleanup_pdf', 'ampycloud.data.CeiloChunk.metar_msg', 'ampycloud.icao.significant_cloud'],
-    lemmas=['cnt_frame', 'cnt_mono', 'cnt_subset', 'cnt_union', 'sig_le3', 'abbr_len', 'abbr_re', 'concat_re', 'code_grammar', 'fmt03.digits', 'prop.C18.h.three_digits'],
+               'ampycloud.data.AbstractChunk._cleanup_pdf', 'ampycloud.data.CeiloChunk.metar_msg', 'ampycloud.icao.significant_cloud',
+               'ampycloud.data.CeiloChunk.find_slices', 'ampycloud.data.CeiloChunk._merge_close_groups', 'ampycloud.data.CeiloChunk.metarize',
+               'ampycloud.data.CeiloChunk._setup_sligrolay_pdf', 'ampycloud.data.CeiloChunk._calculate_sligrolay_base_height',
+               'ampycloud.data.CeiloChunk._calculate_base_height_for_selection', 'ampycloud.data.CeiloChunk._add_sligrolay_information'],
+    lemmas=['cnt_frame', 'cnt_mono', 'cnt_subset', 'cnt_union', 'cnt_ext', 'sig_le3', 'abbr_len', 'abbr_re', 'concat_re', 'code_grammar', 'fmt03.digits',
+            'prop.C18.h.three_digits', 'prop.C02.nosig', 'prop.C18.h.mono'],
     extras=[_fs.c08], bounded=_bounded('c08'),
     explanation=('PROVED (syntactic): every raise statement in the package raises AmpycloudError and nothing is caught.  PROVED (P): in the '
                  'functions under full-mode contract every partial operation is safe and only the declared AmpycloudError can escape '
                  '(obligations safe.* and exc.unexpected.*): percentile of a non-empty tail, MIN_SEP_VALS index in range, division by the '
                  'number of measurements (>= 1), perc2okta argument in [0,100], okta2code applied to a Python int in 0..8 (never None + str), '
-                 'row indices inside the tables, message assembly.  NOT DECIDED: totality of scikit-learn / statsmodels / pandas internals '
-                 'and the stages not yet under full-mode contract (find_slices / find_groups / find_layers bodies): valid scenes x valid '
-                 'parameter sets are run natively (B).'),
+                 'row indices inside the tables, message assembly; in find_slices the cluster labels fit the rows they are written to (no '
+                 'ValueError from a length mismatch); in the merge loop `idx - 1`, the dropped label and all cell reads are in range; in '
+                 'metarize and its helpers every cell read is defined, every selection handed to the base routine is non-empty and holds valid '
+                 'heights.  NOT DECIDED: totality of scikit-learn / statsmodels / pandas internals and the stages not under full-mode '
+                 'contract (find_groups / find_layers bodies): valid scenes x valid parameter sets are run natively (B).'),
     assumptions=[A_REAL, 'library preconditions as stated in pyvc/lib.py'],
-    not_decided=['third-party code raises nothing under its stated preconditions', 'call-site preconditions inside find_slices / find_groups / find_layers'],
+    not_decided=['third-party code raises nothing under its stated preconditions', 'call-site preconditions inside find_groups / find_layers'],
 ))
 
 _add(PropertySpec(
